@@ -893,5 +893,5 @@ wait:
 func ptr[T any](v T) *T { return &v }
 
 func TestC16_patch(t *testing.T) {
-	ev.Check(t, ev.Get("C16"), ev.Scale(200, 600), genC16Patch, propC16Patch)
+	ev.Check(t, ev.Get("C16"), ev.Scale(400, 900), genC16Patch, propC16Patch)
 }
